@@ -47,7 +47,86 @@ func (g *Gen) concOp(f int) Step {
 	}
 }
 
+// heavy batches on one large frame: the operations take long enough to overlap in time, several of
+// them use the same kind of scratch state (hash tables, matcher buffers with the same pattern)
+func (g *Gen) concHeavy(n int) {
+	rid := toBS("rid")
+	g.begin("concurrent heavy")
+	st := g.keyFrame(n, []int{3, 40, 300}[g.rng.Intn(3)], "AFSX")
+	f := g.do(st)
+	if g.frame(f).Err != nil {
+		g.end()
+		return
+	}
+	f = g.do(Step{Op: "WithRowNums", Recv: f, Dst: rid})
+	s := schemaOf(g.frame(f))
+	pat := g.oneOf([]string{"%k1%", "K%", "%a", "%K2%"})
+	mk := func(kind int) Step {
+		switch kind {
+		case 0:
+			return Step{Op: "Distinct", Recv: f, Cols: bsList(g.subset([]string{"A", "F", "S", "X"}, 2)), Null: g.rng.Intn(2) == 0, Rid: rid}
+		case 1:
+			return Step{Op: "GroupBy", Recv: f, Cols: bsList(g.subset([]string{"A", "F", "S", "X"}, 2)), Null: g.rng.Intn(2) == 0, Rid: rid}
+		case 2:
+			return Step{Op: "Sort", Recv: f, Orders: g.sortOrders(s, 2), Rid: rid}
+		case 3:
+			cl := Clause{K: "leaf", Col: toBS(g.oneOf([]string{"S", "X"})), CmpK: "str", Cmp: "ilike", Arg: &Val{T: "string", S: toBS(pat)}}
+			return Step{Op: "Filter", Recv: f, Clause: &cl}
+		case 4:
+			return Step{Op: "ToCSV", Recv: f}
+		default:
+			return Step{Op: "Apply", Recv: f, Instrs: []Instr{{Fn: FnRef{K: "fn1", Sym: "UpperS"}, Dst: toBS("U"), Src1: toBS("S")}}}
+		}
+	}
+	for batch := 0; batch < 5; batch++ {
+		subs := []Step{}
+		focus := batch // most goroutines of a batch do the same kind of thing; every kind gets its batch
+		for j := 0; j < 8; j++ {
+			k := focus
+			if g.rng.Intn(4) == 0 {
+				k = g.rng.Intn(6)
+			}
+			subs = append(subs, mk(k))
+		}
+		g.do(Step{Op: "Concurrent", Recv: -1, Subs: subs, A: 2, B: g.rng.Intn(1 << 20)})
+	}
+	g.end()
+}
+
+// many more goroutines than processors, all using GroupBy / Distinct (hash tables) on a frame and a
+// slice of it: goroutines get descheduled in the middle of an operation
+func (g *Gen) concMany() {
+	rid := toBS("rid")
+	g.begin("concurrent many")
+	f := g.do(g.keyFrame(300, []int{5, 40, 150}[g.rng.Intn(3)], "AS"))
+	f = g.do(Step{Op: "WithRowNums", Recv: f, Dst: rid})
+	sl := g.do(Step{Op: "Slice", Recv: f, A: 0, B: 150})
+	sl = g.do(Step{Op: "Drop", Recv: sl, Cols: []BS{rid}})
+	sl = g.do(Step{Op: "WithRowNums", Recv: sl, Dst: rid})
+	subs := []Step{}
+	for j := 0; j < 64; j++ {
+		recv := f
+		if j%3 == 0 {
+			recv = sl
+		}
+		cols := bsList([]string{[]string{"A", "S"}[j%2]})
+		if j%2 == 0 {
+			subs = append(subs, Step{Op: "Distinct", Recv: recv, Cols: cols, Null: true, Rid: rid})
+		} else {
+			subs = append(subs, Step{Op: "GroupBy", Recv: recv, Cols: cols, Null: true, Rid: rid})
+		}
+	}
+	g.do(Step{Op: "Concurrent", Recv: -1, Subs: subs, A: 3, B: g.rng.Intn(1 << 20)})
+	g.end()
+}
+
 func genC11(g *Gen) {
+	for rep := 0; rep < g.pick(2, 20); rep++ {
+		g.concMany()
+	}
+	for rep := 0; rep < g.pick(3, 40); rep++ {
+		g.concHeavy([]int{600, 1200, 2500}[g.rng.Intn(g.pick(2, 3))])
+	}
 	colsets := []string{"ABF", "AFTSE", "SREX", "SXE", "ATE", "ABCFGTUSRED"}
 	sizes := []int{3, 8, 20, 60, 200}
 	for rep := 0; rep < g.pick(30, 400); rep++ {
